@@ -9,6 +9,9 @@ ev = json.load(open(os.path.join(ROOT, "evidence", prop + ".json")))
 assert ev["tier"] == "quick"
 times = {o["name"]: float(o.get("wall_s") or 0) for o in ev["coverage"]["obligation_details"]}
 known = {k["obligation"] for k in json.load(open(os.path.join(ROOT, "known_findings.json")))["findings"]}
+# obligations that detect a confirmed seeded change stay in the quick tier (tools/keep_quick.txt)
+kq = os.path.join(ROOT, "tools", "keep_quick.txt")
+if os.path.exists(kq): known.update(l.strip() for l in open(kq) if l.strip())
 specs = {}
 for f in sorted(glob.glob(os.path.join(ROOT, "harness", "*.json"))):
     specs[f] = json.load(open(f))
